@@ -51,7 +51,14 @@ def gz_with_name(data):
     return b"\x1f\x8b\x08\x08\x00\x00\x00\x00\x00\x03" + b"name.txt\x00" + body + struct.pack("<II", zlib.crc32(data) & 0xffffffff, len(data) & 0xffffffff)
 
 
+def lzma_alone(data):
+    # the legacy .lzma container (13-byte header: properties, dictionary size, size = -1 with end marker), which is what the library decodes
+    import lzma
+    return lzma.compress(data, format=lzma.FORMAT_ALONE, preset=1)
+
+
 CODINGS = [
+    ("lzma", b"lzma", lzma_alone),
     ("gzip", b"gzip", gz), ("x-gzip", b"x-gzip", gz), ("deflate-raw", b"deflate", raw_deflate), ("deflate-zlib", b"deflate", zlib_deflate),
     ("gzip-as-deflate", b"deflate", gz), ("raw-as-gzip", b"gzip", raw_deflate), ("zlib-as-gzip", b"gzip", zlib_deflate),
     ("gzip-fname", b"gzip", gz_with_name), ("Gzip-case", b"GZip", gz),
@@ -107,7 +114,7 @@ def scenarios(ctx):
                 body = comp(pl)
                 res = frame(r, b"HTTP/1.1 200 OK\r\nContent-Encoding: " + ce + b"\r\n", body, framing)
                 for mode in (("whole", "rand", "small-first", "bytes") if len(res) < 3000 else ("whole", "rand", "small-first")):
-                    valid = name in ("gzip", "x-gzip", "deflate-raw", "Gzip-case")
+                    valid = name in ("gzip", "x-gzip", "deflate-raw", "Gzip-case", "lzma")
                     out.append({"kind": "faithful", "name": "%s/p%d/%s/%s" % (name, pi, framing, mode), "cfg": "respdecomp=1,ztime=1000000",
                                 "req": REQ, "pieces": cuts(r, res, mode), "payload": pl, "valid": valid, "compressed": body, "framing": framing,
                                 "wrong_wrapper": not valid, "close": framing == "close"})
